@@ -148,7 +148,7 @@ def families():
         t.append(dev + ".macro m\nnop\n.endm\n" + ("m\n" * 2000 + ".org pc+1\n") * 30)
         t.append(dev + ".macro m\nnop\n.endm\n.macro k\n" + "m\n" * 1000 + ".endm\n" + ("k\n" * 40 + ".cseg\n.org pc + 2\n") * 12)
         t.append(dev + ".macro m\n.dseg\n.byte 1\n.cseg\nnop\n.endm\n" + "m\n" * 20000)
-        t.append(dev + ".macro m\n.db " + "@0" * 20000 + "\n.endm\nm " + "1" * 20000 + "\n")
+        t.append(dev + ".macro m\n.db " + "@0" * 20000 + "\n.endm\nm " + "a" * 20000 + "\n")
         t.append(dev + ".macro m\n.db " + ",".join(["@0"] * 16000) + "\n.endm\nm " + "+".join(["1"] * 8000) + "\n")
         t.append(dev + ".macro m\n.db " + "@0@1@2@3@4@5@6@7@8@9" * 3000 + "\n.endm\nm " + ", ".join(["1" * 6000] * 10) + "\n")
         # few calls, many lines: 100 x 100 x 8000
@@ -316,6 +316,10 @@ def check(prop, tier, seed):
                          ".org 0x2000000\nnop\n", ".eseg\n.org 0x2000000\n.db 1\n", ".eseg\n.db 1\n.cseg\nnop\n.eseg\n.byte 0x3000000\n",
                          ".macro m\n.eseg\n.byte 0x2000000\n.endm\nm\n", ".org 0x1000000\n.db \"x\"\n.org 0x2000000\n.dw 1\n"):
                 hogs.append(".device %s\n%s" % (dev, body))
+        # a body line naming one parameter thousands of times, called with a very long (valid) argument: refused before the text is built
+        for reps, arglen in ((8000, 32000), (20000, 20000), (2000, 60000), (30000, 2000)):
+            hogs.append(".macro m\n.db " + ",".join(["@0"] * reps) + "\n.endm\nm " + "a" * arglen + "\n")
+            hogs.append(".macro m\n.db @1+" + "+".join(["@0"] * reps) + "\n.endm\nm " + "sym_" + "b" * arglen + ", 1\n")
         hres = run_jobs([{"k": "str", "id": j, "src": t, "nohex": True} for j, t in enumerate(hogs)], watchdog=WATCHDOG, as_bytes=SMALL_AS_LIMIT, workers=4)
         for j, t in enumerate(hogs):
             oc = classify(hres[j])
